@@ -16,7 +16,8 @@ RULE = ('the C01 program stream (random typed programs over the public tensor op
         'is never used) and (py) TENPY_NO_CYTHON=1. Verdict: per step both must agree on legs (nested pipes, sorted/'
         'bunched flags), labels, total charge, canonicalised block list, values (exact: integer-valued inputs), '
         'error class, returned permutations, and on not mutating their operands; the cached claim _qdata_sorted may '
-        'differ only where both variants of the Lean model (kernel parameter) predict exactly that divergence. '
+        'differ only where both variants of the Lean model (kernel parameter; only iadd_prefactor_other) predict exactly '
+        'that divergence. '
         'Each configuration is additionally diffed against the Lean model Arr (refinement). dtype differences are '
         'recorded, not judged. Non-trivial: as C01.')
 TRUSTED = ['Lean 4.33 kernel; axioms of the C04_* theorems ⊆ {propext, Classical.choice, Quot.sound}',
@@ -128,7 +129,7 @@ def summary(v):
 
 
 def run(ctx):
-    return C01.run_stream(ctx, judge=judge_c04, prop=PROP)
+    return C01.shrink(ctx, C01.run_stream(ctx, judge=judge_c04, prop=PROP), judge_c04)
 
 
 def search(ctx, reasons):
